@@ -117,4 +117,39 @@ AlgoAddSameE2(N, a, b) ==
       r  == IF Cmp(ma, mb) >= 0 THEN AddMagsE2(N, ma, mb) ELSE AddMagsE2(N, mb, ma)
   IN IF Sign(N, a) THEN Neg(N, r) ELSE r
 AddSamePre(N, a, b) == a # <<>> /\ b # <<>> /\ ~IsNaR(N, a) /\ ~IsNaR(N, b) /\ Sign(N, a) = Sign(N, b)
+
+-----------------------------------------------------------------------------
+(* sub_mags: the difference of two magnitudes, a > b > 0.  Same alignment as add_mags, but a   *)
+(* scale difference above 63 returns a unchanged; the difference is renormalised by the code's *)
+(* two loops (`<<= 4` with k -= 1 while nothing at or above bit 59, then `<<= 1` with the      *)
+(* exponent borrowed down until bit 62 is set), given here in closed form; the tail is         *)
+(* add_mags's.                                                                                 *)
+SubMagsE2(N, a, b) ==
+  LET x == Sep(N, a)  y == Sep(N, b)
+      sr == 4 * (x.k - y.k) + x.ex - y.ex
+  IN IF sr > 63 THEN a
+     ELSE
+       LET D0 == Sub(Shl(x.f, 32), Shr(Shl(y.f, 32), sr))
+           L  == BitLen(D0)
+           n4 == IF L - 1 < 59 THEN (63 - L) \div 4 ELSE 0          \* iterations of the first loop
+           n1 == 62 - (L - 1 + 4 * n4)                              \* iterations of the second loop
+           s  == 4 * (x.k - n4) + x.ex - n1
+           k2 == IF s >= 0 THEN s \div 4 ELSE -((-s + 3) \div 4)
+           D  == Shl(D0, 4 * n4 + n1)
+       IN Shr(AddTailE2(N, k2, s - 4 * k2, Low(D, 62)), 32 - N)
+
+\* `add` and `sub` with their heads (zero is tested before NaR in add, after it in sub) and the dispatch on signs
+AlgoAddE2(N, a, b) ==
+  IF a = <<>> \/ b = <<>> THEN Add(a, b)                             \* ui_a | ui_b, one of them zero
+  ELSE IF IsNaR(N, a) \/ IsNaR(N, b) THEN NaR(N)
+  ELSE IF Sign(N, a) = Sign(N, b) THEN AlgoAddSameE2(N, a, b)
+  ELSE LET ma == Abs(N, a)  mb == Abs(N, b)  c == Cmp(ma, mb) IN
+       IF c = 0 THEN <<>>
+       ELSE LET r  == IF c > 0 THEN SubMagsE2(N, ma, mb) ELSE SubMagsE2(N, mb, ma)
+                sg == IF c > 0 THEN Sign(N, a) ELSE ~Sign(N, a)
+            IN IF sg THEN Neg(N, r) ELSE r
+AlgoSubE2(N, a, b) ==
+  IF IsNaR(N, a) \/ IsNaR(N, b) THEN NaR(N)
+  ELSE IF a = <<>> \/ b = <<>> THEN Add(a, Neg(N, b))
+  ELSE AlgoAddE2(N, a, Neg(N, b))
 =======================================================================
